@@ -132,7 +132,7 @@ var props = map[string]*propConfig{
 			{Name: "kills", Flags: map[string]string{"family": "kills"}, Quick: 24000, Thorough: 3200000},
 		},
 		QuickBudget: 90 * time.Second, ThoroughBudget: 25 * time.Minute, Chunk: 50,
-		Rule: "one run = 2..4 simulated processes (independent counter.file objects and mappings of one shared file, 1..2 threads each) incrementing names drawn from a pool with same-name, same-bucket (colliding), page-crossing and page-end-sized names, scheduled at single-atomic-operation granularity, with 0..3 kills placed at a random step or right after the victim's k-th limit CAS / head CAS / record write / extension write / mmap; the file is strictly decoded by an independent decoder after every step; distinct = distinct event-log hash; non-trivial = at least one context switch between live tasks or a kill",
+		Rule: "one run = 2..4 simulated processes (independent counter.file objects and mappings of one shared file, 1..2 threads each) incrementing names drawn from a pool with same-name, same-bucket (colliding), page-crossing and page-end-sized names, scheduled at single-atomic-operation granularity, with 0..3 kills placed at a random step or right after the victim's k-th limit CAS / head CAS / record write / extension write / mmap; the file is strictly decoded by an independent decoder after every step; distinct = distinct event-log hash; non-trivial = at least one context switch between live tasks or a kill; one run in six has a foreign opener (same file name, other build metadata) that must be refused once the file exists; the header metadata of an initialised file must never change",
 		Real: []string{"internal/counter", "internal/mmap", "internal/telemetry", "Linux tmpfs, mmap(MAP_SHARED) coherence between several mappings in one address space", "real munmap in half of the runs"},
 		Stub: []string{"processes are simulated: one address space, one counter.file object per process; kill = never scheduled again, nothing unwound", "Go scheduler", "wall clock"},
 		Assumptions: []string{
@@ -162,7 +162,7 @@ var props = map[string]*propConfig{
 			{Name: "upload-failures", Harness: "h2", Flags: map[string]string{"family": "upload"}, Quick: 240, Thorough: 80000},
 		},
 		QuickBudget: 100 * time.Second, ThoroughBudget: 14 * time.Minute, Chunk: 10,
-		Rule: "call-failures: one seeded workload (1..2 processes x 1..2 threads, first open, increments incl. page growth, optional rotation, optional deletion of files in use, directory found as a regular file) is executed fault-free to count its N file-system/mmap calls, then re-executed once per (call index, errno in ENOENT/EACCES/EROFS/ENOSPC/EIO/EMFILE/EINTR, or short write) [quick: every call with a third of the errnos plus all short writes], once per persistent state (read-only, permission denied, mmap always failing) and for a sample of pairs (thorough: all pairs when N<=60); corruption-at-rest: a valid file built by the independent encoder is damaged (random bytes, truncation classes, header length, limit, bucket heads, name lengths, next links incl. self-loops, longer cycles and cross-chain links, for plain and ditto-compressed stack names) and then opened and incremented by the library; evaluations = executions; distinct = distinct event-log hash of the last execution of each workload; non-trivial = a fault fired or the file was damaged; upload-failures: the directory as found may also hold files whose names only nearly match the data-file patterns (x.json, .json, local..json, 2024.json, .v1.count, ...)",
+		Rule: "call-failures: one seeded workload (1..2 processes x 1..2 threads, first open, increments incl. page growth, optional rotation, optional deletion of files in use, directory found as a regular file) is executed fault-free to count its N file-system/mmap calls, then re-executed once per (call index, errno in ENOENT/EACCES/EROFS/ENOSPC/EIO/EMFILE/EINTR, or short write) [quick: every call with a third of the errnos plus all short writes], once per persistent state (read-only, permission denied, mmap always failing) and for a sample of pairs (thorough: all pairs when N<=60); corruption-at-rest: a valid file built by the independent encoder is damaged (random bytes, truncation classes, header length, limit, bucket heads, name lengths, next links incl. self-loops, longer cycles and cross-chain links, for plain and ditto-compressed stack names) and then opened and incremented by the library; evaluations = executions; distinct = distinct event-log hash of the last execution of each workload; non-trivial = a fault fired or the file was damaged; upload-failures: the directory as found may also hold files whose names only nearly match the data-file patterns (x.json, .json, local..json, 2024.json, .v1.count, ...); both worlds may find a mode file cut short or otherwise odd",
 		Real: []string{"internal/counter", "internal/mmap", "internal/telemetry", "Linux tmpfs / mmap"},
 		Stub: []string{"failing calls are injected by the file-system shim instead of being performed", "Go scheduler", "wall clock"},
 		Assumptions: []string{
@@ -203,7 +203,7 @@ var props = map[string]*propConfig{
 		Harness: "h2", Level: "exploration",
 		Families:    []family{{Name: "concurrent-uploaders", Flags: map[string]string{"family": "plain"}, Quick: 12000, Thorough: 2000000}},
 		QuickBudget: 100 * time.Second, ThoroughBudget: 25 * time.Minute, Chunk: 50,
-		Rule:        "one run = a machine history of 2..4 rounds over simulated weeks: counter files of 3 programs x versions x Go versions x platforms (expired, active, empty, unreadable, near-miss names), then 1..4 concurrent real upload.Run calls in mode on or local scheduled at file-system/HTTP-call granularity with tape-permuted map order, server fates from the tape; after each round the reference aggregation is compared with local.<week>.json for every week that had no report, the call log is checked for removals before a report exists and for any mutating call on active/unreadable files, and existing reports must keep their bytes; distinct = distinct event-log hash; non-trivial = at least one context switch between live uploaders",
+		Rule:        "one run = a machine history of 2..4 rounds over simulated weeks: counter files of 3 programs x versions x Go versions x platforms (expired, active, empty, unreadable, near-miss names), then 1..4 concurrent real upload.Run calls in mode on or local scheduled at file-system/HTTP-call granularity with tape-permuted map order, server fates from the tape; after each round the reference aggregation is compared with local.<week>.json for every week that had no report, the call log is checked for removals before a report exists and for any mutating call on active/unreadable files, and existing reports must keep their bytes; distinct = distinct event-log hash; non-trivial = at least one context switch between live uploaders; in a third of the runs the machine lives in a local time zone (UTC-8, UTC+14, UTC-11:30) that every time.Now() carries, and one uploader in five is handed its start time in such a zone; a program named local.tool is in the pool",
 		Real:        []string{"internal/upload (all of it: findWork, reports, createReport, uploadReport; instrumented)", "internal/telemetry (mode file)", "internal/config", "internal/counter.Parse (uninstrumented in this world)", "cmd/gotelemetry runOn/runLocal/runOff/runClean", "Linux tmpfs (O_EXCL, link, rename semantics are the kernel's)"},
 		Stub:        []string{"internal/configstore.Download replaced by a stub that hands out the simulated config store's current version (the real one runs `go mod download`)", "upload server: a policy stub deciding each request's fate (200 / 4xx / 5xx / no answer / processed-but-answer-lost / duplicate delivery); its verdict on a given body is stable", "counter files are produced by the independent encoder (refformat)", "crypto/rand.Reader replaced so that X is chosen by the tape", "Go scheduler, wall clock"},
 		Assumptions: []string{"weeks mixing expired and unexpired files of one end date are not generated (ends are midnights)", "sums stay far below 2^62", "sampling, not enumeration"},
@@ -216,7 +216,7 @@ var props = map[string]*propConfig{
 			{Name: "no-kill-liveness", Flags: map[string]string{"family": "nokill"}, Quick: 6000, Thorough: 1200000},
 		},
 		QuickBudget: 100 * time.Second, ThoroughBudget: 13 * time.Minute, Chunk: 50,
-		Rule:        "as C07 in mode on with 2..4 concurrent uploaders per round and per-request server fates (200, 4xx, 5xx, no answer, processed-but-answer-lost, duplicate delivery); kills family: an uploader is killed after a file-system or HTTP call with probability 1/150 per marked call (nothing unwound: the lock file stays); checked over the server-side history: all accepted bodies of a week identical, no request for a week that was acknowledged and recorded as uploaded, after 5xx/no answer the receiving task leaves the report alone, after 4xx it does not mark it uploaded; no-kill family additionally: once the server answers 200, three more sequential runs deliver every sendable week, each acknowledged to a client exactly once; client-error answers are drawn from 400..499 and server-error answers from 500..599; one round in ten is preceded by the clock being set back 1..20 days",
+		Rule:        "as C07 in mode on with 2..4 concurrent uploaders per round and per-request server fates (200, 4xx, 5xx, no answer, processed-but-answer-lost, duplicate delivery); kills family: an uploader is killed after a file-system or HTTP call with probability 1/150 per marked call (nothing unwound: the lock file stays); checked over the server-side history: all accepted bodies of a week identical, no request for a week that was acknowledged and recorded as uploaded, after 5xx/no answer the receiving task leaves the report alone, after 4xx it does not mark it uploaded; no-kill family additionally: once the server answers 200, three more sequential runs deliver every sendable week, each acknowledged to a client exactly once; client-error answers are drawn from 400..499 and server-error answers from 500..599; one round in ten is preceded by the clock being set back 1..20 days; one crash-free run in eight has an upload directory that cannot be created: delivery is not demanded there, more than one acknowledgement of a week is a violation",
 		Real:        []string{"internal/upload (all of it: findWork, reports, createReport, uploadReport; instrumented)", "internal/telemetry (mode file)", "internal/config", "internal/counter.Parse (uninstrumented in this world)", "cmd/gotelemetry runOn/runLocal/runOff/runClean", "Linux tmpfs (O_EXCL, link, rename semantics are the kernel's)"},
 		Stub:        []string{"internal/configstore.Download replaced by a stub that hands out the simulated config store's current version (the real one runs `go mod download`)", "upload server: a policy stub deciding each request's fate (200 / 4xx / 5xx / no answer / processed-but-answer-lost / duplicate delivery); its verdict on a given body is stable", "counter files are produced by the independent encoder (refformat)", "crypto/rand.Reader replaced so that X is chosen by the tape", "Go scheduler, wall clock"},
 		Assumptions: []string{"the server is adversarial about availability, not validity: it never accepts a body it has rejected, nor rejects one it has accepted", "liveness is claimed without kills only (a kill legitimately leaves a stale lock)", "kill = SIGKILL between two calls"},
@@ -239,7 +239,7 @@ var props = map[string]*propConfig{
 			{Name: "counter-api-off", Harness: "h1", Flags: map[string]string{"family": "counteroff"}, Quick: 4000, Thorough: 400000},
 		},
 		QuickBudget: 100 * time.Second, ThoroughBudget: 25 * time.Minute, Chunk: 50,
-		Rule:        "histories in which between rounds the mode changes (SetModeAsOf with back-dated opt-in dates, arbitrary bytes in the mode file, invalid modes) and counter-file begin/end, opt-in date and run time are placed on a simulated calendar; per request: the independently parsed mode is exactly on, the week is not in the future and after the opt-in date; per uploadable report: built in mode on, week not older than 21 days, X not above a positive sample rate, all data strictly after the opt-in date; rounds in mode off: no mutating call on and no change to any counter file or report; SetModeAsOf/Mode round trip and rejection of invalid modes leaving the bytes unchanged",
+		Rule:        "histories in which between rounds the mode changes (SetModeAsOf with back-dated opt-in dates, arbitrary bytes in the mode file, invalid modes) and counter-file begin/end, opt-in date and run time are placed on a simulated calendar; per request: the independently parsed mode is exactly on, the week is not in the future and after the opt-in date; per uploadable report: built in mode on, week not older than 21 days, X not above a positive sample rate, all data strictly after the opt-in date; rounds in mode off: no mutating call on and no change to any counter file or report; SetModeAsOf/Mode round trip and rejection of invalid modes leaving the bytes unchanged; a third of the library calls are SetMode without a time (today's UTC date must be read back, also when the file already names that mode)",
 		Real:        []string{"internal/upload (all of it: findWork, reports, createReport, uploadReport; instrumented)", "internal/telemetry (mode file)", "internal/config", "internal/counter.Parse (uninstrumented in this world)", "cmd/gotelemetry runOn/runLocal/runOff/runClean", "Linux tmpfs (O_EXCL, link, rename semantics are the kernel's)"},
 		Stub:        []string{"internal/configstore.Download replaced by a stub that hands out the simulated config store's current version (the real one runs `go mod download`)", "upload server: a policy stub deciding each request's fate (200 / 4xx / 5xx / no answer / processed-but-answer-lost / duplicate delivery); its verdict on a given body is stable", "counter files are produced by the independent encoder (refformat)", "crypto/rand.Reader replaced so that X is chosen by the tape", "Go scheduler, wall clock"},
 		Assumptions: []string{"counter-api-off family (counter world): with the mode file saying off when the process starts, Open / OpenAndRotate (package-level and per-file), increments, the rotation timer and clock jumps perform no mutating file-system call and leave the directory (incl. data left from earlier) byte-identical", "an unreadable mode file is modelled by content the parser cannot read, not by permissions (the sandbox runs as root)"},
@@ -262,7 +262,7 @@ var props = map[string]*propConfig{
 			{Name: "token-within-24h", Flags: map[string]string{"family": "within24h"}, Quick: 8000, Thorough: 1600000},
 		},
 		QuickBudget: 100 * time.Second, ThoroughBudget: 12 * time.Minute, Chunk: 50,
-		Rule:        "one run = 2..8 starter processes (child marker unset / 1 / 2 / junk, crash-reporting flag, upload flag) calling the real Start concurrently with mode on / local / off / missing / garbage and the upload token absent / fresh / stale (incl. exactly 24 h), interleaved at file-system-call granularity (stat token, remove, exclusive create), some starters hours apart; spawned children run the real child path (marker rewrite, counter.Open, upload.Run) and the stubbed config download spawns a descendant that calls Start again; checked at every spawn: mode not off, spawner not a telemetry child or descendant, upload flag only with a token acquired in this call and requested, otherwise crash reporting requested; mode off: no mutating call, directory unchanged; within-24h family: at most one token acquisition (none if a fresh token exists); a third of the processes enter through MaybeChild before Start (only a process marked 1 may stay in it); mode files as the commands write them or hand-written (no date, trailing newline, CRLF, surrounding spaces); a separate per-user default directory with its own mode",
+		Rule:        "one run = 2..8 starter processes (child marker unset / 1 / 2 / junk, crash-reporting flag, upload flag) calling the real Start concurrently with mode on / local / off / missing / garbage and the upload token absent / fresh / stale (incl. exactly 24 h), interleaved at file-system-call granularity (stat token, remove, exclusive create), some starters hours apart; spawned children run the real child path (marker rewrite, counter.Open, upload.Run) and the stubbed config download spawns a descendant that calls Start again; checked at every spawn: mode not off, spawner not a telemetry child or descendant, upload flag only with a token acquired in this call and requested, otherwise crash reporting requested; mode off: no mutating call, directory unchanged; within-24h family: at most one token acquisition (none if a fresh token exists); a third of the processes enter through MaybeChild before Start (only a process marked 1 may stay in it); mode files as the commands write them or hand-written (no date, trailing newline, CRLF, surrounding spaces); a separate per-user default directory with its own mode; the n-th start of a telemetry child may fail and the debug directory may exist (sidecar.log possibly a directory)",
 		Real:        []string{"Start, parent, startChild, child, uploaderChild, acquireUploadToken (start.go)", "counter.Open / internal/counter", "internal/upload.Run", "internal/telemetry"},
 		Stub:        []string{"process creation, environment, os.Exit, log.Fatal: simulated process table", "internal/crashmonitor.Parent/Child (they take over crash output and stdin)", "internal/configstore.Download: spawns a simulated `go mod download` descendant that calls Start with the inherited environment, then returns an empty config", "upload server (always 200)", "clock and file modification times"},
 		Assumptions: []string{"simulated processes share one address space: package-level state of internal/counter (the default file) is shared by them", "the statement is only-if: whether a child must be launched when permitted is not checked"},
@@ -272,7 +272,7 @@ var props = map[string]*propConfig{
 		Harness: "h3", Level: "exploration",
 		Families:    []family{{Name: "request-stream", Flags: map[string]string{"family": "requests"}, Quick: 8000, Thorough: 3200000}},
 		QuickBudget: 100 * time.Second, ThoroughBudget: 20 * time.Minute, Chunk: 50,
-		Rule:        "one run = a stream of 3..14 requests to the real upload handler behind its real middleware chain and a real file-system bucket: all methods; bodies that are valid approved reports (incl. ~100 KiB ones and hostile X values), reports with exactly one field invalid (week not a date, config not semver, X = 0, one unapproved program/version/Go version/GOOS/GOARCH/counter/stack, near-miss names), arbitrary bytes, well-formed JSON of the wrong shape, truncated and oversize JSON, duplicates; delivered through a body reader with short reads, a mid-stream error or an early end; after every request the answer class and the recursive listing of the storage directory are compared with a map object store and the reference configuration semantics; clauses that depend only on a pure function of the body are claimed for the request-stream/history part only; valid reports may carry fields the report type does not have or bytes after the JSON value (acceptance of the latter is not judged), and every stored object is decoded strictly: known fields only, one value",
+		Rule:        "one run = a stream of 3..14 requests to the real upload handler behind its real middleware chain and a real file-system bucket: all methods; bodies that are valid approved reports (incl. ~100 KiB ones and hostile X values), reports with exactly one field invalid (week not a date, config not semver, X = 0, one unapproved program/version/Go version/GOOS/GOARCH/counter/stack, near-miss names), arbitrary bytes, well-formed JSON of the wrong shape, truncated and oversize JSON, duplicates; delivered through a body reader with short reads, a mid-stream error or an early end; after every request the answer class and the recursive listing of the storage directory are compared with a map object store and the reference configuration semantics; clauses that depend only on a pure function of the body are claimed for the request-stream/history part only; valid reports may carry fields the report type does not have or bytes after the JSON value (acceptance of the latter is not judged), and every stored object is decoded strictly: known fields only, one value; one report in five reuses the week and X of an accepted one with other content; bodies padded to limit-1 / limit / limit+1 with half of the requests declaring their length",
 		Real:        []string{"godev/cmd/telemetrygodev handleUpload + validate", "godev/internal/middleware chain (Log, Timeout, RequestSize, Recover)", "godev/internal/content error-to-status mapping", "godev/internal/storage FSBucket", "internal/config"},
 		Stub:        []string{"no socket: requests are handed to ServeHTTP with a ResponseRecorder", "client body stream simulated (short reads, errors, early EOF)", "GCS backend not run"},
 		Assumptions: []string{"a body whose delivered prefix is itself complete JSON followed by trailing bytes is not judged (the documentation does not say)", "the URL path is a clean /upload/<date> (paths are not in the property's quantifier)"},
@@ -294,7 +294,7 @@ var props = map[string]*propConfig{
 		Harness: "h4", Level: "exploration",
 		Families:    []family{{Name: "merge-and-chart", Flags: map[string]string{"family": "worker"}, Quick: 5000, Thorough: 1600000}},
 		QuickBudget: 100 * time.Second, ThoroughBudget: 20 * time.Minute, Chunk: 50,
-		Rule:        "one run = 1..4 simulated days of stored reports (0..40 per day, sizes from tiny to just under the 100 KiB upload limit so that merged lines exceed 64 KiB, repeated X across days, several programs and buckets), the real handleMerge per day (sometimes skipping one) and the real handleChart for single days and ranges, with the bucket listing order and Go's map iteration order inside group/partition permuted by the tape; each chart is computed three times under different permutations; checked: one merged record per stored object decoding to it, NumReports, every partition value against the reference count of distinct report IDs, byte-identical output, 404 and no chart object for a range containing a day never merged; a day may have been merged before, when one of its objects was larger (same week and X stored again with less in it)",
+		Rule:        "one run = 1..4 simulated days of stored reports (0..40 per day, sizes from tiny to just under the 100 KiB upload limit so that merged lines exceed 64 KiB, repeated X across days, several programs and buckets), the real handleMerge per day (sometimes skipping one) and the real handleChart for single days and ranges, with the bucket listing order and Go's map iteration order inside group/partition permuted by the tape; each chart is computed three times under different permutations; checked: one merged record per stored object decoding to it, NumReports, every partition value against the reference count of distinct report IDs, byte-identical output, 404 and no chart object for a range containing a day never merged; a day may have been merged before, when one of its objects was larger (same week and X stored again with less in it); the configuration lists pre-release Go versions and versions that are equal as semantic versions",
 		Real:        []string{"godev/cmd/worker handleMerge, readMergedReports, handleChart, group, charts, partition (instrumented: map iteration order)", "godev/internal/storage FSBucket", "internal/config"},
 		Stub:        []string{"bucket handles wrapped so that the listing order comes from the tape", "requests handed to the handlers with a ResponseRecorder", "GCS, Cloud Tasks not run"},
 		Assumptions: []string{"configuration Go versions are of the form go1.N.P (the development version maps to an empty bucket name)", "zero-count buckets may be present or absent"},
